@@ -135,10 +135,20 @@ func run(c Case) (v vkit.Verdict) {
 	if !bytes.Equal(got, want) {
 		return v.Fail("Encode bytes differ from OGC layout:\n got  %x\n want %x", got, want)
 	}
-	// (1) round trip
+	// (1) round trip; results are kept across two later calls of the codec on another geometry (as in a batch)
+	snap := append([]byte(nil), got...)
 	back, err := wkb.Decode(got)
 	if err != nil {
 		return v.Fail("Decode(Encode(g)) error: %v", err)
+	}
+	if ob, err := wkb.Encode(geom.LineString{{X: 7, Y: 7}, {X: 8, Y: 9.5}, {X: 1000, Y: -2}}, wkb.XDR); err == nil {
+		wkb.Decode(ob)
+	}
+	if ob, err := wkb.Encode(geom.Point{X: 7, Y: 7}, wkb.NDR); err == nil {
+		wkb.Decode(ob)
+	}
+	if !bytes.Equal(got, snap) {
+		return v.Fail("the bytes returned by Encode(g) were changed by later Encode/Decode calls")
 	}
 	bj, ok := vkit.FromGeom(back)
 	if !ok || !bj.Equal(c.G, true) {
